@@ -42,12 +42,12 @@ var ruleSets = map[string]func(a *Analyzer, r *Results){
 var propSets = map[string][]string{
 	"C01": {"more", "ingest", "proof", "c06"},
 	"C02": {"c02", "c12"},
-	"C03": {"ingest", "c20"},
-	"C04": {"ingest"},
-	"C05": {"more", "ingest", "chan", "loops", "setters"},
+	"C03": {"ingest", "c20", "c02"},
+	"C04": {"ingest", "proof"},
+	"C05": {"more", "ingest", "chan", "loops", "setters", "c19f"},
 	"C06": {"c06"},
 	"C07": {"more", "ingest", "proof"},
-	"C08": {"ingest", "proof"},
+	"C08": {"ingest", "proof", "c17"},
 	"C09": {"more", "ingest", "c20"},
 	"C10": {"ingest", "setters", "c20"},
 	"C11": {"more", "ingest", "proof", "c20"},
@@ -55,9 +55,9 @@ var propSets = map[string][]string{
 	"C13": {"more", "ingest", "setters", "locks", "registry", "loops", "c17"},
 	"C14": {"more", "ingest", "chan", "sync", "loops", "registry", "shutdown", "timer"},
 	"C15": {"more", "ingest", "registry", "locks", "loops", "sync", "shutdown"},
-	"C16": {"more", "chan", "spawn", "shutdown", "timer", "c12", "registry"},
+	"C16": {"more", "chan", "spawn", "shutdown", "timer", "c12", "registry", "ingest"},
 	"C17": {"more", "ingest", "c17"},
-	"C18": {"more", "c18"},
+	"C18": {"more", "c18", "ingest"},
 	"C19": {"more", "c19f", "timer", "chan", "loops", "ingest"},
 	"C20": {"more", "c20"},
 }
@@ -135,8 +135,25 @@ func runChecks(repo, prop, tier, outDir, knownPath, explain, goarch string, star
 	res := NewResults()
 	for _, s := range sets {
 		t0 := time.Now()
+		n0 := len(res.Obls)
 		ruleSets[s](a, res)
 		res.Stats["ms."+s] = int(time.Since(t0).Milliseconds())
+		if prop == "all" {
+			// self-check of the registration table: a rule set that produces obligations for a property must be run for it
+			for _, o := range res.Obls[n0:] {
+				for _, pp := range o.Props {
+					reg := false
+					for _, x := range propSets[pp] {
+						if x == s {
+							reg = true
+						}
+					}
+					if !reg {
+						broken("rule set %q produces obligations for %s (rule %s) but is not registered for it in propSets", s, pp, o.Rule)
+					}
+				}
+			}
+		}
 	}
 	if os.Getenv("LH_DEBUG_TIMES") != "" {
 		for k, v := range res.Stats {
@@ -316,26 +333,87 @@ func report(a *Analyzer, res *Results, prop, tier, outDir, knownPath string, sta
 		}
 	}
 	code := 0
-	if len(res.Undecided) > 0 {
-		for _, u := range dedupSorted(res.Undecided) {
-			fmt.Printf("UNDECIDED: %s\n", u)
-		}
-		code = 2
+	// what could not be decided (a lost anchor, an exceeded bound, a rule matching fewer sites than confirmed by reading)
+	// is reported like a violation: the property was not shown to hold on this tree
+	undecided := func(what string) {
+		o := &Obl{Rule: "UNDECIDED", Key: "UNDECIDED|" + what, Props: []string{prop}, Status: "undecided", Site: "-", Engine: "-",
+			Text: "every obligation of the property is decided on this tree (an anchor the rules rely on was found, bounds were not exceeded, rules match at least the sites confirmed by reading)", Missing: what}
+		g := &group{key: o.Key, rule: o.Rule, insts: []*Obl{o}, violated: []*Obl{o}}
+		groups[o.Key] = g
+		order = append(order, o.Key)
+	}
+	for _, u := range dedupSorted(res.Undecided) {
+		fmt.Printf("UNDECIDED: %s\n", u)
+		undecided(u)
 	}
 	// vacuity
 	ruleCount := map[string]int{}
 	for _, o := range obls {
 		ruleCount[o.Rule]++
 	}
+	var vac []string
 	for rule, min := range minInstances {
 		if ruleServes(rule, prop) && ruleCount[rule] < min {
-			fmt.Printf("BROKEN: rule %s matched %d sites, fewer than the %d confirmed by reading (vacuous pass refused)\n", rule, ruleCount[rule], min)
-			code = 2
+			vac = append(vac, fmt.Sprintf("rule %s matched %d sites, fewer than the %d confirmed by reading (vacuous pass refused)", rule, ruleCount[rule], min))
 		}
+	}
+	// every rule of the catalogue confirmed on the reference tree must still find something to judge: a rule whose
+	// anchor construct disappeared would otherwise pass vacuously for ever
+	if explainKey == "" {
+		expFile := filepath.Join(filepath.Dir(knownPath), "expected_rules.json")
+		if w := os.Getenv("LH_EXPECTED"); w != "" && prop == "all" {
+			exp := map[string][]string{}
+			for _, o := range obls {
+				for _, pp := range o.Props {
+					found := false
+					for _, x := range exp[o.Rule] {
+						if x == pp {
+							found = true
+						}
+					}
+					if !found {
+						exp[o.Rule] = append(exp[o.Rule], pp)
+					}
+				}
+			}
+			for k := range exp {
+				sort.Strings(exp[k])
+			}
+			b, _ := json.MarshalIndent(exp, "", " ")
+			os.WriteFile(w, append(b, '\n'), 0o644)
+		}
+		if b, err := os.ReadFile(expFile); err == nil {
+			exp := map[string][]string{}
+			if json.Unmarshal(b, &exp) == nil {
+				var names []string
+				for rule := range exp {
+					names = append(names, rule)
+				}
+				sort.Strings(names)
+				for _, rule := range names {
+					serves := prop == "all"
+					for _, pp := range exp[rule] {
+						if pp == prop {
+							serves = true
+						}
+					}
+					if serves && ruleCount[rule] == 0 {
+						vac = append(vac, fmt.Sprintf("rule %s found nothing to judge on this tree (it is confirmed on the reference tree: the construct it is anchored in is gone or no longer recognised)", rule))
+					}
+				}
+			}
+		} else {
+			vac = append(vac, "cannot read "+expFile)
+		}
+	}
+	sort.Strings(vac)
+	for _, v := range vac {
+		fmt.Printf("BROKEN: %s\n", v)
+		undecided(v)
 	}
 	if len(obls) == 0 {
 		fmt.Printf("BROKEN: no obligations generated for %s\n", prop)
-		code = 2
+		undecided("no obligations generated for " + prop)
 	}
 	nViol, nKnown, nDis := 0, 0, 0
 	os.MkdirAll(filepath.Join(outDir, "violations"), 0o755)
@@ -393,6 +471,28 @@ func report(a *Analyzer, res *Results, prop, tier, outDir, knownPath string, sta
 		writeEvidence(a, res, prop, tier, outDir, obls, len(order), nDis, nKnown, nViol, wall, code)
 	}
 	return code
+}
+
+// reportUndecidedOnly: the analysis stopped at a lost anchor; write the report and the VIOLATION line for it.
+func reportUndecidedOnly(prop, outDir, what string) int {
+	os.MkdirAll(filepath.Join(outDir, "violations"), 0o755)
+	if old, _ := filepath.Glob(filepath.Join(outDir, "violations", prop+"-*.json")); old != nil {
+		for _, f := range old {
+			os.Remove(f)
+		}
+	}
+	path := filepath.Join(outDir, "violations", prop+"-1.json")
+	o := &Obl{Rule: "UNDECIDED", Key: "UNDECIDED|" + what, Props: []string{prop}, Status: "undecided", Site: "-", Engine: "-",
+		Text: "every obligation of the property is decided on this tree", Missing: what}
+	rep := map[string]interface{}{
+		"property": prop, "key": o.Key, "rule": o.Rule, "text": o.Text,
+		"instances": []*Obl{o}, "replay": fmt.Sprintf("/verif/bin/lhcheck -prop %s -explain %s", prop, path),
+	}
+	b, _ := json.MarshalIndent(rep, "", " ")
+	os.WriteFile(path, b, 0o644)
+	fmt.Printf("VIOLATION property=%s replay=%s\n", prop, path)
+	fmt.Printf("  rule UNDECIDED: %s\n  missing: %s\n", o.Text, what)
+	return 1
 }
 
 func ruleServes(rule, prop string) bool {
